@@ -205,9 +205,10 @@ pub fn handle_setrange(storage: &Arc<StorageEngine>, db: usize, parts: &[RespFra
     
     let offset = match &parts[2] {
         RespFrame::BulkString(Some(bytes)) => {
-            match String::from_utf8_lossy(bytes).parse::<usize>() {
-                Ok(n) => n,
-                Err(_) => return Ok(RespFrame::error("ERR value is not an integer or out of range")),
+            // An offset is a non-negative 64-bit signed integer, as every other integer argument
+            match String::from_utf8_lossy(bytes).parse::<i64>() {
+                Ok(n) if n >= 0 => n as usize,
+                _ => return Ok(RespFrame::error("ERR value is not an integer or out of range")),
             }
         }
         _ => return Ok(RespFrame::error("ERR invalid offset format")),
